@@ -10,7 +10,9 @@ from common import ImplError, frac, impl_call, is_err, is_ok, short
 
 ID = "C09"
 LEVEL = "proof"
-RULE = ("kinds: theta (one SparseDrugComboMCMCSample / SparseDrugComboInteractionMCMCSample with random parameters -- "
+RULE = ("size regions: a screen of 1025 experiments x 1 sample and 257 experiments x 5 samples in a holder (thorough: 1023 / 1024 / 1025 / 4097 "
+        "experiments, 33 / 65 samples in a holder, both sample types), same predicates.  " +
+        "kinds: theta (one SparseDrugComboMCMCSample / SparseDrugComboInteractionMCMCSample with random parameters -- "
         "short dyadic k/2^m values plus a minority of full-precision doubles, non-zero LAST embedding row, embedding "
         "dim 0..3 -- predicting mean / viability / variance on a screen of arity 1 or 2 (<= 12 rows) built through the real "
         "batchie.data.Screen with control in either / both columns by name or by dose; plus Screen.subset, every Plate, nested "
@@ -240,6 +242,11 @@ def _gen_case(rng, ttype, arity, dmin=0):
 
 def gen(rng, tier):
     k = 1 if tier == "quick" else 12
+    # size regions: around and beyond 1024 rows, dozens of thetas (blocked implementations)
+    for n in ([1025] if tier == "quick" else [1023, 1024, 1025, 4097]):
+        for ttype in (["sparse"] if tier == "quick" else ["sparse", "inter"]):
+            yield dict(kind="theta", big=[n, rng.randrange(10 ** 6), ttype, 0])
+            yield dict(kind="all", big=[n if tier != "quick" else 257, rng.randrange(10 ** 6), ttype, 5 if tier == "quick" else rng.choice([33, 65])])
     for _ in range(260 * k):
         ttype = rng.choice(["sparse", "sparse", "sparse", "inter", "inter"])
         arity = 2 if ttype == "inter" else rng.choice([1, 2, 2])
@@ -385,12 +392,22 @@ def _snap(theta, scr):
         s["screen." + k] = copy.deepcopy(getattr(base, k))
     if hasattr(scr, "selection_vector"):
         s["subset.selection_vector"] = scr.selection_vector.copy()
+    # the attribute NAMES too: the sample's private parameters are its __dict__ (models/sparse_combo.py private_parameters_dict),
+    # so an attribute added by a prediction method (a memo) changes what ThetaHolder.save_h5 writes and what from_dicts accepts
+    s["screen.__dict__ keys"] = sorted(getattr(base, "__dict__", {}).keys())
+    if base is not scr:
+        s["subset.__dict__ keys"] = sorted(getattr(scr, "__dict__", {}).keys())
     return s
 
 
 def _snap_diff(before, theta, scr):
     after = _snap(theta, scr)
+    added = sorted(set(after) - set(before))
+    if added:
+        return added[0] + " (attribute added by the prediction)"
     for k, v in before.items():
+        if k not in after:
+            return k + " (attribute removed by the prediction)"
         w = after[k]
         if isinstance(v, np.ndarray):
             same = isinstance(w, np.ndarray) and v.shape == w.shape and v.dtype == w.dtype and np.array_equal(v, w)
@@ -572,9 +589,16 @@ def _pred_theta(desc, theta, scr, base):
                     if not _veq(a, _sel(b, single)):
                         return "%s of a pair with control differs from the single-agent prediction" % nm
         else:
+            lk = {(int(c), int(t)): float(v) for c, t, v in desc["theta"]["lookup"]}
             for i in range(n):
                 if -1 in tid[i] and mean[i] != 0.0:
                     return "interaction mean of a pair with control is not 0: row %d" % i
+                k1, k2 = (sid[i], tid[i][0]), (sid[i], tid[i][1])
+                if -1 in tid[i] and k1 in lk and k2 in lk:
+                    # no interaction term: the viability is the (clipped) product of the two single-effect table entries alone
+                    want = min(max(min(max(lk[k1] * lk[k2], 0.01), 0.99), 0.01), 0.99)
+                    if abs(viab[i] - want) > TOL * max(1.0, abs(want)):
+                        return "interaction viability of a pair with control is %r, not the clipped product of its single-effect entries %r: row %d" % (viab[i], want, i)
     if ok_base and s["arity"] == 1 and sparse:
         th = desc["theta"]
         for i in range(n):
@@ -630,10 +654,30 @@ def _theta_features(td, tids):
     return f
 
 
+def _expand_big(desc):
+    """big = [n, seed, type, n_thetas]: a screen with ~a thousand / several thousand experiments written compactly (the whole
+    description is regenerated from the seed); an implementation that works in blocks of rows or of thetas shows here"""
+    import random as _random
+    n, seed, ttype, m = desc["big"]
+    g = _random.Random(seed)
+    scr = _gen_screen(g, 2, n, "", 0.3)
+    u, ns = _counts(scr)
+    if desc["kind"] == "theta":
+        th = _gen_theta(g, ttype, ns, max(1, u), 1)
+        mask, mask2, idx = _views(g, n)
+        return dict(kind="theta", theta=th, scr=scr, mask=mask, mask2=mask2, idx=idx, big=desc["big"])
+    ths = [_gen_theta(g, ttype, ns, max(1, u), 1) for _ in range(m)]
+    return dict(kind="all", thetas=ths, n_decl=m, scr=scr, big=desc["big"])
+
+
 def run(desc):
     from batchie.core import ThetaHolder
     from batchie.models import main as mm
 
+    if "big" in desc and "scr" not in desc:
+        r = run(_expand_big(desc))
+        r["features"] = list(r["features"]) + ["big:n>=%d" % (1000 if desc["big"][0] < 4000 else 4000), "big-thetas:%d" % desc["big"][3]]
+        return r
     k = desc["kind"]
     scr = _build_screen(desc["scr"])
     tids = [[int(x) for x in r] for r in scr.treatment_ids]
@@ -712,6 +756,12 @@ def run(desc):
 
 
 def shrink(desc):
+    if "big" in desc and "scr" not in desc:
+        n, seed, ttype, m = desc["big"]
+        for n2 in (n // 2, n - 1):
+            if n2 >= 1:
+                yield dict(desc, big=[n2, seed, ttype, m])
+        return
     s = desc["scr"]
     n = len(s["sn"])
     for i in range(n):
